@@ -79,7 +79,7 @@ macro_rules | `(tactic| frames_close) => `(tactic| (apply Frames.liftI; first
         | exact NoStruct.docStart | exact NoStruct.docEnd | exact NoStruct.canBePlain _
         | exact NoStruct.skipWhileNonBreakz | exact NoStruct.skipWhileBlank
         | exact NoStruct.fetchWhileIsAlpha _ | exact NoStruct.skipWsToEol _))
-macro_rules | `(tactic| frames_close) => `(tactic| (apply Frames.modS; intro s; exact ⟨rfl, rfl, rfl, rfl, rfl, rfl, ⟨[], by simp⟩⟩))
+macro_rules | `(tactic| frames_close) => `(tactic| (apply Frames.modS; intro s; exact ⟨rfl, rfl, rfl, rfl, rfl, rfl, ⟨[], (List.append_nil _).symm⟩⟩))
 macro_rules | `(tactic| frames_close) => `(tactic| first
     | exact Frames.lookahead _ | exact Frames.peek | exact Frames.peekNth _ | exact Frames.lookCh
     | exact Frames.skipBlank | exact Frames.skipNonBlank | exact Frames.skipNNonBlank _ | exact Frames.skipNl
